@@ -23,8 +23,9 @@ EXPLANATION = (
     "subsets share a slot only if a reference ray walk gives them the same attack set; (R7) the fill loops of the engine "
     "(make_table) and of the generator's collision test (try_make_table) run their body once for every subset of the "
     "mask: loop-carried blocker set, initial value, update term and continue/stop conditions are read off the MIR and the "
-    "recurrence is evaluated for all 128 masks of this build (2 x 107,648 steps). Other random draws are covered only "
-    "through R2-R4 and R7.")
+    "recurrence is evaluated for all 128 masks of this build (2 x 107,648 steps); (R8) the lookups are made with the whole "
+    "occupancy, rook / bishop / queen through the right tables, own pieces removed (imports C01.R5 arms, R9, R6). Other random "
+    "draws are covered only through R2-R4 and R7.")
 ASSUMPTIONS = [
     "rustc const evaluation of the generated constants and the chessfacts extractor are faithful",
 ]
@@ -1008,7 +1009,24 @@ def r7_fill_loops(ctx):
     ctx.floor(rule, 'subset-walk steps evaluated', (n1 or 0) + (n2 or 0), 2 * (102400 + 5248))
 
 
+def r8_lookup_use(ctx):
+    """the tables are consulted with the real occupancy: rook pieces through the rook lookup, bishops through the bishop lookup, queens
+    through both, blockers = all pieces of both colours, own pieces removed from the result (= C01.R5 sliding arms, C01.R9, C01.R6)"""
+    from . import c01
+    sub = type(ctx)(ctx.prop, ctx.tier, ctx.facts, ctx.facts_info, ctx.seed)
+    c01.r5_attack_map(sub)
+    n = 0
+    for s_ in sub.samples:
+        if s_['rule'] in ('C01.R9-slider-blockers', 'C01.R6-own-piece-exclusion') or 'lookup' in s_['instance']:
+            n += 1
+            ctx.ob('C11.R8-lookup-use', s_['function'], s_['instance'], s_['ok'], found=s_['found'], expected=s_['expected'],
+                   why='an exact table consulted with a doctored occupancy (a piece left out of the blockers) still reports a slider attacking through that piece',
+                   nontrivial='floor' not in s_['instance'])
+    ctx.floor('C11.R8-lookup-use', 'lookup obligations imported', n, 3)
+
+
 def run(ctx):
+    r8_lookup_use(ctx)
     r1_leapers(ctx)
     r2_deltas(ctx)
     r3_index(ctx)
